@@ -75,6 +75,23 @@ def judge_mutate(s, area, names):
             m = O.check_sound(name2, area, s, O.observe(name2, area, st, fill=0.5))
             if m:
                 return n, f'{name2} area {area}: after writing to an observation returned earlier by {name}: {m}', name2
+    # the same for what the visibility functions hand out: a mask of the view's shape is asked for directly and blanked in place
+    from gym_gridverse.envs.visibility_functions import visibility_function_registry as _VF
+    from gym_gridverse.grid import Grid as _Grid
+    vh, vw = O.area_shape(area)
+    for vname in ('fully_transparent', 'partially_occluded', 'raytracing'):
+        if vname == 'partially_occluded' and not O.applicable(vname, area):
+            continue
+        try:
+            mask = _VF[vname](_Grid.from_shape((vh, vw)), Position(-area[0][0], -area[1][0]))
+            np.asarray(mask)[...] = False
+        except Exception:  # noqa: BLE001 -- read-only or non-array results are fine
+            continue
+    for name2 in names:
+        n += 1
+        m = O.check_sound(name2, area, s, O.observe(name2, area, st, fill=0.5))
+        if m:
+            return n, f'{name2} area {area}: after a visibility mask handed out to a caller was blanked in place: {m}', name2
     cells = [(y, x) for y in range(H) for x in range(W)]
     (ymin, ymax), (xmin, xmax) = area
     corners = {c for c in (R.world_cell(s[1], s[2], s[3], dy, dx) for dy in (ymin, ymax) for dx in (xmin, xmax)) if R.inside(s[0], c)}
@@ -84,7 +101,7 @@ def judge_mutate(s, area, names):
     for c in sorted(corners)[:4]:
         edits.append(('set', c, U.beacon(3)))
     edits.append(('pose', ((s[1] + 1) % H, (s[2] + 1) % W), R.TURN_RIGHT[s[3]]))
-    for e in edits:
+    for ei, e in enumerate(edits):
         if e[0] == 'swap':
             st.grid.swap(Position(*e[1]), Position(*e[2]))
         elif e[0] == 'set':
@@ -93,6 +110,9 @@ def judge_mutate(s, area, names):
             st.agent.position = Position(*e[1])
             st.agent.orientation = ORI[e[2]]
         now = sdesc(st)
+        if ei % 2 == 1 or len(edits) == 1:
+            # another reader of the grid runs between the edit and the next look (a space membership test does this)
+            st.grid.object_types()
         for name in names:
             n += 1
             m = O.check_sound(name, area, now, O.observe(name, area, st, fill=0.5))
